@@ -59,7 +59,7 @@ pub fn corrupt_strategy() -> BoxedStrategy<CorruptCase> {
         3 => any::<u32>().prop_map(|m| if m == 0 { 1 } else { m }),
         1 => Just(0xFFu32), 1 => Just(0xFFFF_FFFFu32), 1 => Just(0x8000_0001u32),
     ];
-    (cfg, prop::collection::vec(op_strategy(&gen), 1..gen.max_ops), any::<u16>(), any::<u16>(), mask, 0u8..3, prop::bool::weighted(0.3))
+    (cfg, prop::collection::vec(op_strategy(&gen), 1..gen.max_ops), any::<u16>(), any::<u16>(), mask, 0u8..4, prop::bool::weighted(0.3))
         .prop_map(|(cfg, ops, rec_sel, pos_frac, mask, mode, lazy)| CorruptCase { cfg, ops, rec_sel, pos_frac, mask, mode, lazy })
         .boxed()
 }
@@ -111,7 +111,22 @@ pub fn run_corrupt(c: &CorruptCase, dir: &Path, findings: &crate::findings::Find
         if mask[..width].iter().all(|b| *b == 0) {
             mask[0] = 1;
         }
-        if c.mode > 0 {
+        if c.mode == 3 {
+            // restart with every index regenerated by the (possibly validating) scan of the still intact blobs,
+            // then alter the bytes while that session is open: a start-up validation is no licence to skip later audits
+            ex.close().await?;
+            for (_, is_idx, p) in sut::list_files(dir) {
+                if is_idx {
+                    let _ = std::fs::remove_file(p);
+                }
+            }
+            match sut::open(&c.cfg, dir, c.lazy).await {
+                Ok(s) => ex.sut = Some(s),
+                Err(e) => return f(&ex, "init/err", format!("{:#}", e)),
+            }
+            ex.model.restart(c.lazy);
+        }
+        if c.mode == 1 || c.mode == 2 {
             ex.close().await?;
         }
         {
@@ -127,7 +142,7 @@ pub fn run_corrupt(c: &CorruptCase, dir: &Path, findings: &crate::findings::Find
         }
         labels.insert(format!("mode_{}", c.mode));
         let mut dropped = false;
-        if c.mode > 0 {
+        if c.mode == 1 || c.mode == 2 {
             if c.mode == 2 {
                 for (_, is_idx, p) in sut::list_files(dir) {
                     if is_idx {
@@ -275,7 +290,7 @@ pub fn run_corrupt(c: &CorruptCase, dir: &Path, findings: &crate::findings::Find
 }
 
 fn sample_corrupt(c: &CorruptCase) -> Value {
-    json!({"cfg": format!("keylen={} validate_data={} ignore_corrupted={} rt_workers={}", c.cfg.keylen, c.cfg.validate_data, c.cfg.ignore_corrupted, c.cfg.rt_workers), "ops": render_ops(&c.ops), "victim_selector": c.rec_sel, "position_frac": c.pos_frac, "xor_mask": format!("{:#010x}", c.mask), "mode": (["open", "closed, indexes kept", "closed, indexes removed"][c.mode as usize % 3]), "lazy": c.lazy})
+    json!({"cfg": format!("keylen={} validate_data={} ignore_corrupted={} rt_workers={}", c.cfg.keylen, c.cfg.validate_data, c.cfg.ignore_corrupted, c.cfg.rt_workers), "ops": render_ops(&c.ops), "victim_selector": c.rec_sel, "position_frac": c.pos_frac, "xor_mask": format!("{:#010x}", c.mask), "mode": (["open", "closed, indexes kept", "closed, indexes removed", "restarted without indexes, then altered while open"][c.mode as usize % 4]), "lazy": c.lazy})
 }
 
 /// Every value length 0..=8300 once (and around 80 KiB): write, read back through every API, switch, read again
@@ -321,7 +336,7 @@ pub fn run(ctx: &RunCtx) -> PropResult {
     PropResult {
         report,
         level: "fault_enumeration",
-        rule: "(round trip) histories whose value lengths are centred on the write-path thresholds (4096 - header - meta +-2, 4096 +-2, 81920 - header - meta +-2, 81920 +-2), plus 0..2, 3..6000, 200000 bytes and (5 % of the writes) 1 MiB - 1 / 1 MiB / 1 MiB + 517 / 3 MiB + 1, four fill kinds (pseudo-random, all zero, the record magic pattern, and pseudo-random with a forged tail so that the value's CRC32C is exactly 0 - the checksum of an empty value), a 7-entry metadata pool (empty, binary, empty and non-ASCII names, 700-byte value); read, read_with, Entry::load, Entry::load_data + load_meta compared byte-for-byte with the model after every step with the index in memory, on disk and regenerated, on both runtime flavours; an enumerated phase writes every 7th (quick) / every (thorough) length 0..8300 and the neighbourhood of both thresholds. (corruption) a generated history, then a stored record chosen through the harness's own blob parser, a position in its data region and an XOR burst of at most 32 bits (<=4 contiguous bytes); applied with the storage open, or closed then reopened with index files kept / removed, data validation on/off, corrupted blobs quarantined/ignored. Oracle: every query whose answer needs the altered data returns Err (CRC32C detects every burst <=32 bits, so there is no probabilistic slack) or the blob was dropped by init with validation on (then answers equal the model without that blob); every other query returns exactly the model's answer; a following write succeeds. Non-trivial: round trip = a threshold-relative length was written; corruption = a query touched the altered record or the blob was dropped. distinct = FNV hash of the serialized case.".into(),
+        rule: "(round trip) histories whose value lengths are centred on the write-path thresholds (4096 - header - meta +-2, 4096 +-2, 81920 - header - meta +-2, 81920 +-2), plus 0..2, 3..6000, 200000 bytes and (5 % of the writes) 1 MiB - 1 / 1 MiB / 1 MiB + 517 / 3 MiB + 1, four fill kinds (pseudo-random, all zero, the record magic pattern, and pseudo-random with a forged tail so that the value's CRC32C is exactly 0 - the checksum of an empty value), an 8-entry metadata pool (empty, binary, empty and non-ASCII names, 700-byte value, one 70 000-byte value); read, read_with, Entry::load, Entry::load_data + load_meta compared byte-for-byte with the model after every step with the index in memory, on disk and regenerated, on both runtime flavours; an enumerated phase writes every 7th (quick) / every (thorough) length 0..8300 and the neighbourhood of both thresholds. (corruption) a generated history, then a stored record chosen through the harness's own blob parser, a position in its data region and an XOR burst of at most 32 bits (<=4 contiguous bytes); applied with the storage open (in the writing session, or in a session that started by regenerating every index - with data validation on that start-up scan has just validated the bytes), or closed then reopened with index files kept / removed, data validation on/off, corrupted blobs quarantined/ignored. Oracle: every query whose answer needs the altered data returns Err (CRC32C detects every burst <=32 bits, so there is no probabilistic slack) or the blob was dropped by init with validation on (then answers equal the model without that blob); every other query returns exactly the model's answer; a following write succeeds. Non-trivial: round trip = a threshold-relative length was written; corruption = a query touched the altered record or the blob was dropped. distinct = FNV hash of the serialized case.".into(),
         assumptions: common_assumptions(),
     }
 }
